@@ -175,7 +175,9 @@ func checkC11(r *Run) {
 	checkClusterKey(r, p)
 	checkPledgeKey(r, p)
 	checkSortedSearch(r, p)
-	checkErrDrop(r, p, "C11.ERR", func(fn *FuncNode) bool { return fn.InPkgs("aspen/internal/cluster/pledge") || (fn.InPkgs("aspen/internal/cluster") && !fn.InPkgs("aspen/internal/cluster/gossip", "aspen/internal/cluster/store")) }, 40)
+	checkErrDrop(r, p, "C11.ERR", func(fn *FuncNode) bool {
+		return fn.InPkgs("aspen/internal/cluster/pledge") || (fn.InPkgs("aspen/internal/cluster") && !fn.InPkgs("aspen/internal/cluster/gossip", "aspen/internal/cluster/store"))
+	}, 40)
 	checkConsultQuorum(r, p)
 
 	// ---- R4
